@@ -97,6 +97,8 @@ class KeyAction(object):
                     raise PGPError(warning)
                 else:
                     logging.warning(warning)
+                    # enforcement is off: go ahead with the key the operation was called on, not whichever subkey was looked at last
+                    _key = key
 
         else:
             _key = key
